@@ -447,7 +447,7 @@ fn one_history(cfg: &Cfg, out: &mut Out, r: &mut Rng, hist_no: u64) {
 
 pub fn run(cfg: &Cfg, out: &mut Out) {
     let mut r = cfg.rng(18);
-    let n = cfg.n(120, 1000);
+    let n = cfg.n(120, 600);
     for hist_no in 0..n {
         one_history(cfg, out, &mut r, hist_no);
     }
